@@ -30,9 +30,15 @@ ENGINES = [
 # --- `hp.state` / `hp.after simulation_wrapper_differs` pair when a direct run of the wrapped action differs.
 PROP["runs"]["quick"].append(('h_sim', 'sim', 0, 600))
 PROP["runs"]["thorough"].append(('h_sim', 'sim', 0, 60000))
-PROP["rule"] += "; case (sim) = one random landscape (same 7 shapes, SI/SEI, latency 0..3, 1..4 mortality cohorts) with 5-14 calls of public pops::Simulation methods (remove, remove_percentage, mortality, movement with a scheduled movement list, generate + disperse / disperse_and_infect in all instantiable overloads with an injected logging kernel and scripted establishment uniforms, move_overpopulated_pests with the deterministic neighbour kernel, optionally activate_soils; with and without set_environment), non-trivial = at least 3 different method kinds on a landscape with a suitable cell"
+PROP["rule"] += "; case (sim) = one random landscape (same 7 shapes, SI/SEI, latency 0..3, 1..4 mortality cohorts) with 5-14 calls of public pops::Simulation methods (remove, remove_percentage, mortality, movement with a scheduled movement list, generate + disperse / disperse_and_infect in all instantiable overloads with an injected logging kernel and scripted establishment uniforms, move_overpopulated_pests with the deterministic neighbour kernel or an injected per-source table kernel, optionally activate_soils; with and without set_environment), non-trivial = at least 3 different method kinds on a landscape with a suitable cell"
 PROP["explanation"] += " The deprecated wrapper pops::Simulation is inside the same correspondence: each of its public methods is called on random landscapes and must produce the line (state, pest rasters, cursor) that the wrapped action produces, checked against the same L1 model and predicates; in addition every call is repeated with the wrapped action class on a full HostPool over an identical copy with an identical provider, and any difference of the host rasters or suitable cells is reported as PROPFAIL C09 simulation_wrapper_differs."
 ENGINES.append({"name": "h_sim", "path": "harness/h_sim.cpp", "serves_properties": [], "kind_free_text": "C++ correspondence harness: public methods of the deprecated pops::Simulation wrapper on random landscapes, protocol lines of the wrapped actions (checked by the host-pool driver engine) plus a differential run of the wrapped action classes on an identical copy"})
 
 # --- honesty note (independent review of the statements, DESIGN 8.12)
 PROP["explanation"] += " Note on strength: C09_order, C09_iff, C09_compose and the C09_frame_* theorems are true by the definition of `plan` / `runStepHosts` in the model - they record what the model is, and what they say about the code is exactly what the hook-trace correspondence establishes (every step of every generated configuration: the trace of Model::run_step equals `plan`, and each action's state transition equals the L1 action). The raster entry point has no model of its own; h_model runs both entry points and compares them."
+
+# --- differential wiring rule (check.py): action predicates that fail inside Model::run_step (h_model) although the same
+# --- predicate of the same action holds on every direct call in the same run (h_host, h_sim) are C09 violations
+PROP["wiring"] = dict(inside=["h_model"], outside=["h_host", "h_sim"],
+                      commands=["hp.lethal", "hp.survival", "hp.stepfwd", "hp.mortality", "hp.manage", "hp.spread", "hp.overpop", "hp.movement"])
+PROP["explanation"] += " Differential wiring rule: the same L1 predicates judge the actions called directly (h_host, h_sim) and the action blocks inside Model::run_step (h_model); a predicate that fails only inside the model - wrong argument, moment or object handed to a correct action - is reported as a C09 violation with the failing step."
